@@ -78,6 +78,12 @@ func (wf *WALFileType) Replay(dryRun bool) error {
 			if continueRead = fullRead(err); !continueRead {
 				break // Break out of switch
 			}
+			if err != nil {
+				// a damaged record (bad length or checksum) is not a transaction group: skip it
+				// and keep scanning, the intact transactions of this file must still be replayed
+				delete(tgData, tgID)
+				break // Break out of switch
+			}
 			// give up Replay if there is already a TG data location in this WAL
 			if _, ok := offsetTGDataInWAL[tgID]; ok {
 				log.Error(io.GetCallerFileContext(0) + ": Duplicate TG Data in WAL")
@@ -274,6 +280,11 @@ func (wf *WALFileType) readTGData() (tgID int64, tgSerialized []byte, err error)
 
 	if !sanityCheckValue(wf.FilePtr, tgLen) {
 		return 0, nil, errors.New(io.GetCallerFileContext(0) + fmt.Sprintf(": Insane TG Length: %d", tgLen))
+	}
+
+	// a transaction group holds at least its ID and the count of its write sets
+	if tgLen < tgIDBytes+tgIDBytes {
+		return 0, nil, errors.New(io.GetCallerFileContext(0) + fmt.Sprintf(": TG Length too short: %d", tgLen))
 	}
 
 	// Read the data
